@@ -201,9 +201,13 @@ impl Wal {
 			Err(e) => return Err(Error::IO(IOError::new(e.kind(), &e.to_string()))),
 		}
 
-		// Parse the record type from header byte 6
+		// Parse the record type from header byte 6. A byte that is no record type means
+		// the head of the segment is damaged: that is for the reader to report (and for
+		// recovery to repair or refuse), not a reason to fail opening the writer.
 		let record_type_byte = header[6];
-		let record_type = RecordType::from_u8(record_type_byte)?;
+		let Ok(record_type) = RecordType::from_u8(record_type_byte) else {
+			return Ok(CompressionType::None);
+		};
 
 		if record_type == RecordType::SetCompressionType {
 			// Read the compression type byte (length is in bytes 4-5)
